@@ -4,6 +4,7 @@
 // (a relaxed load of the dummy atomic `elem`) so that "status visible before the element was transferred" is
 // observable.
 //
+// An element <x> is `<key>:<id>` or `<n>` (key = id = n); the comparator sees the key only (ties!), results show ids.
 // stdin:   init <x> <x> ...                 initial contents (pushed sequentially before the threads start)
 //          thread <op> <op> ...             one line per thread; op: p<x> push(const&)  m<x> push(&&)  t<x> push of an
 //                                           element whose copy throws  o try_pop  x try_pop into an element whose assignment throws
@@ -34,26 +35,33 @@ static std::atomic<int> g_elem_touch{0};   // a verif_atomic under the prelude: 
 struct CopyBomb {};
 struct AssignBomb {};
 struct Elem {
-    long v; bool bomb; bool abomb = false;      // abomb: assigning INTO this object throws (op `x`)
-    Elem(long v_ = -7, bool b = false) : v(v_), bomb(b) {}
-    Elem(const Elem& o) : v(-8), bomb(false) { (void)g_elem_touch.load(std::memory_order_relaxed); if (o.bomb) throw CopyBomb(); v = o.v; bomb = o.bomb; }
-    Elem(Elem&& o) noexcept : v(-8), bomb(false) { (void)g_elem_touch.load(std::memory_order_relaxed); v = o.v; bomb = o.bomb; }
-    Elem& operator=(const Elem& o) { (void)g_elem_touch.load(std::memory_order_relaxed); if (abomb) throw AssignBomb(); if (o.bomb) throw CopyBomb(); v = o.v; bomb = o.bomb; return *this; }
-    Elem& operator=(Elem&& o) { (void)g_elem_touch.load(std::memory_order_relaxed); if (abomb) throw AssignBomb(); v = o.v; bomb = o.bomb; return *this; }
-    friend bool operator<(const Elem& a, const Elem& b) { return a.v < b.v; }
+    long key; long v; bool bomb; bool abomb = false;      // abomb: assigning INTO this object throws (op `x`)
+    Elem(long k_ = -7, long v_ = -7, bool b = false) : key(k_), v(v_), bomb(b) {}
+    Elem(const Elem& o) : key(-8), v(-8), bomb(false) { (void)g_elem_touch.load(std::memory_order_relaxed); if (o.bomb) throw CopyBomb(); key = o.key; v = o.v; bomb = o.bomb; }
+    Elem(Elem&& o) noexcept : key(-8), v(-8), bomb(false) { (void)g_elem_touch.load(std::memory_order_relaxed); key = o.key; v = o.v; bomb = o.bomb; }
+    Elem& operator=(const Elem& o) { (void)g_elem_touch.load(std::memory_order_relaxed); if (abomb) throw AssignBomb(); if (o.bomb) throw CopyBomb(); key = o.key; v = o.v; bomb = o.bomb; return *this; }
+    Elem& operator=(Elem&& o) { (void)g_elem_touch.load(std::memory_order_relaxed); if (abomb) throw AssignBomb(); key = o.key; v = o.v; bomb = o.bomb; return *this; }
+    friend bool operator<(const Elem& a, const Elem& b) { return a.key < b.key; }
 };
 using Q = tbb::concurrent_priority_queue<Elem>;
 
-struct OpSpec { char kind; long x; };
+struct OpSpec { char kind; long key; long x; std::string text; };
+static bool parse_elem(const std::string& s, long& key, long& id) {
+    size_t c = s.find(':');
+    try {
+        if (c == std::string::npos) { id = std::stol(s); key = id; return true; }
+        key = std::stol(s.substr(0, c)); id = std::stol(s.substr(c + 1)); return true;
+    } catch (...) { return false; }
+}
 struct OpRes { std::string res = "W"; long begin = -1, end = -1; int cls = 0; };
 
-static std::vector<long> g_init;
+static std::vector<std::pair<long, long>> g_init;    // (key, id)
 static std::vector<std::vector<OpSpec>> g_threads;
 static bool g_full = true;
 
 static bool one_run(verif::Schedule& sch, int runno) {
     auto q = std::make_unique<Q>();
-    for (long x : g_init) q->push(Elem(x, false));
+    for (auto& x : g_init) q->push(Elem(x.first, x.second, false));
     std::vector<std::vector<OpRes>> results(g_threads.size());
     for (size_t t = 0; t < g_threads.size(); ++t) results[t].resize(g_threads[t].size());
     std::vector<std::function<void()>> bodies;
@@ -64,20 +72,20 @@ static bool one_run(verif::Schedule& sch, int runno) {
                 verif::note("begin", k, 0);
                 std::string r;
                 if (o.kind == 'o') {
-                    Elem out(-7, false);
+                    Elem out(-7, -7, false);
                     try {
                         bool ok = q->try_pop(out);
                         r = ok ? "S:" + std::to_string(out.v) : "F";
                     } catch (...) { r = "X"; }     // a foreign exception reached this caller
                 } else if (o.kind == 'x') {        // try_pop into an element whose assignment throws
-                    Elem out(-7, false); out.abomb = true;
+                    Elem out(-7, -7, false); out.abomb = true;
                     try {
                         bool ok = q->try_pop(out);
                         r = ok ? "S:" + std::to_string(out.v) : "F";
                     } catch (const AssignBomb&) { r = "E"; }   // the exception reached the caller of this operation
                     catch (...) { r = "X"; }
                 } else {
-                    Elem e(o.x, o.kind == 't');
+                    Elem e(o.key, o.x, o.kind == 't');
                     try {
                         if (o.kind == 'm') q->push(std::move(e)); else q->push(e);
                         r = "S";
@@ -131,7 +139,7 @@ static bool one_run(verif::Schedule& sch, int runno) {
     for (size_t t = 0; t < g_threads.size(); ++t)
         for (size_t k = 0; k < g_threads[t].size(); ++k) {
             OpSpec o = g_threads[t][k];
-            std::string os(1, o.kind); if (o.kind != 'o' && o.kind != 'x') os += std::to_string(o.x);
+            std::string os = o.text;
             printf("op %zu %zu %s %s %ld %ld %d\n", t, k, os.c_str(), results[t][k].res.c_str(), results[t][k].begin, results[t][k].end, results[t][k].cls);
         }
     printf("sched");
@@ -163,13 +171,13 @@ int main() {
     while (std::getline(std::cin, line)) {
         std::istringstream is(line);
         std::string w; is >> w;
-        if (w == "init") { long x; while (is >> x) g_init.push_back(x); }
+        if (w == "init") { std::string e; while (is >> e) { long k, x; if (!parse_elem(e, k, x)) { puts("bad-scenario"); return 2; } g_init.push_back({k, x}); } }
         else if (w == "thread") {
             g_threads.emplace_back();
             std::string o;
             while (is >> o) {
-                OpSpec s{o[0], 0};
-                if (o[0] != 'o' && o[0] != 'x') s.x = atol(o.c_str() + 1);
+                OpSpec s{o[0], 0, 0, o};
+                if (o[0] != 'o' && o[0] != 'x' && !parse_elem(o.substr(1), s.key, s.x)) { puts("bad-scenario"); return 2; }
                 g_threads.back().push_back(s);
             }
         } else if (w == "sched") { is >> schedkind; long x; while (is >> x) sargs.push_back(x); }
